@@ -588,7 +588,9 @@ def mon_burst_fraction(result, *a, **k):
         violation('C07', 'burst-fraction-length', '%d values for %d cycles' % (len(got), len(ref)))
         return
     for i, (g, r) in enumerate(zip(got, ref)):
-        if not refs.same_float(g, r):
+        # a fraction of samples k / n has one nearest float (count / n, the mean of the marks): the labels compare it with a
+        # threshold that it may equal exactly (default 1: "every sample marked"), so a result one ulp off is a different answer
+        if g != r:
             violation('C07', 'burst-fraction-cell',
                       'cycle %d (%s-centred): burst_fraction %r, fraction of marked samples over the '
                       'inclusive window %r' % (i, center, g, r))
